@@ -197,6 +197,7 @@ fn main() {
         "gen-stream" => stream::cmd_gen(&args),
         "exec-stream" => stream::cmd_exec(&args),
         "exec-one" => stream::cmd_exec_one(&args),
+        "gen-secrets" => stream::cmd_gen_secrets(&args),
         "replay" => cmd_replay(&args),
         _ => {
             eprintln!("usage: driver <selftest|run|replay> ...");
